@@ -97,6 +97,15 @@ ID: /[a-z]+/ & ~/if|else|for/
     g!("id3_not_kw", Lark, "prod", r##"start: ID3 ("," ID3)*
 ID3: /[a-z]{1,3}/ & ~/if|for|fo/
 "##),
+    g!("and_not_prefix_dead", Lark, "prod", r##"start: W ("," W)* "."
+W: /[a-z]{2}/ & ~/a[a-z]/
+"##),
+    g!("and_not_digits", Lark, "prod", r##"start: (N " ")+ "end"
+N: /[0-9]{1,2}/ & ~/1[0-9]?/ & ~/[0-9]7/
+"##),
+    g!("and_suffix_required", Lark, "prod", r##"start: "<" T ">"
+T: /[a-c]{1,4}/ & /(.|\n)*c/
+"##),
     g!("single_byte_after_greedy", Lark, "prod", r##"start: call+
 call: NAME "(" args? ")" ";"
 args: arg ("," arg)*
